@@ -148,6 +148,8 @@ def cases(rng, quick):
             add(lambda i, k=k: g.mcall(g.mcall(i.e(X), 'select', i.l(X)), 'take', c(k)), d, 'lazy-take')
             add(lambda i, k=k: g.mcall(g.mcall(i.e(X), 'where', g.bn('>', i.l(X), c(1))), 'limit', c(k)), d, 'lazy-take')
         add(lambda i: g.mcall(g.mcall(i.e(X), 'select', i.l(X)), 'first', i.e(c(9))), d, 'lazy-take')
+        add(lambda i: g.mcall(g.mcall(i.e(X), 'select', i.l(X)), 'any'), d, 'lazy-take')
+        add(lambda i: g.mcall(g.mcall(i.e(X), 'where', g.bn('<', i.l(X), c(2))), 'any'), d, 'lazy-take')
         add(lambda i: g.mcall(g.mcall(i.e(X), 'where', g.bn('<', i.l(X), c(2))), 'first', i.e(c(9))), d, 'lazy-take')
         add(lambda i: g.mcall(i.e(X), 'orderBy', i.l(X)), d, 'orderBy')
         add(lambda i: g.mcall(g.mcall(i.e(X), 'orderBy', i.l(g.bn('mod', X, c(2)))), 'thenBy', i.l(X)), d, 'orderBy')
